@@ -29,8 +29,10 @@ for p in props:
             'technique': getattr(m, 'TECHNIQUE', None) or (
                 'static analysis (no execution of hickory-dns): ' + FAM.sub(lambda x: x.group(0), m.EXPLANATION.split(' rules ')[0]) +
                 ' rules of the /verif rule engine over MIR facts (pre-optimisation mir_promoted, resolved callees) extracted by a rustc_private '
-                'driver from the type-checked feature-full build of /repo; thorough tier: same rules on the dnssec-aws-lc-rs build, '
-                'self-test on the seeded defect and benign-edit controls in scratch copies'),
+                'driver from the type-checked feature-full build of /repo, with helper-semantics specs (rules/helpers.py), argument/field-name '
+                'contradiction lints (engine/argnames.py) and call-site expansion of new private helpers (engine/inline.py) where the rule '
+                'file uses them; thorough tier: same rules on the dnssec-aws-lc-rs build, self-test on every seeded defect and mutant of the '
+                'property (must be reported) and on its behaviour-preserving refactorings (must stay silent) in scratch copies'),
         })
     else:
         na.append({'property_id': pid, 'reason': NA_REASONS.get(pid, 'static check under construction at this commit (DESIGN.md section 8); not claimed yet')})
@@ -45,7 +47,7 @@ man = {
         {'name': 'mirfacts', 'path': 'driver/', 'serves_properties': [c['property_id'] for c in checks],
          'kind_free_text': 'rustc_private fact extractor: items + pre-optimisation MIR (mir_promoted) of every hickory crate under the real build flags'},
         {'name': 'rules', 'path': 'engine/ + rules/', 'serves_properties': [c['property_id'] for c in checks],
-         'kind_free_text': 'Python rule engine: normal-path CFG, access-path terms, guard normal form, value-sensitive cut-set reachability; one declarative rule file per property'}],
+         'kind_free_text': 'Python rule engine: normal-path CFG, access-path terms, guard normal form (enum is/eq and total-order aliases), value-sensitive cut-set reachability (flags, negations and `?` threaded), transparent-helper expansion; one declarative rule file per property'}],
     'checks': checks,
     'not_applicable': na,
     'notes': 'Technique family: static analysis only. Known genuine defects are listed in known_findings.json (see DESIGN.md section 6).',
